@@ -30,7 +30,7 @@ RULE = ("bounded-exhaustive: every shape (N, d1..dm), N in 0..3, m in 0..3, d in
         "integer/float/bool/str dtype with values at the dtype limits and 2^53+-1, rank 1..4 with singleton axes, random masks, "
         "zarr format 2 and 3); boundary stream: colliding column names (id/source/target/p_0), odd names and strings, single-row "
         "graphs, zero-size axes; CSV: file-name suffix variants, pre-existing files; non-trivial = at least one property; distinct "
-        "by structural input; fx2011 CSV text layer: 63 hand-made distinguishing graphs (2^53+1 / -2^63 / uint64 2^63 beside a missing "
+        "by structural input; fx2011 CSV text layer: 55 hand-made distinguishing graphs (2^53+1 / -2^63 / uint64 2^63 beside a missing "
         "entry, strings 007 NA '' 1e3 True inf None ..., comma/quote/LF/CR/CR+LF/NUL strings, bool with missing, float32 0.1, float16, "
         "0.30000000000000004, uint64 ids beyond 2^63, a 12-wide 2-D property, all-missing columns, empty graph) + random typed graphs "
         "(160 quick / 2500 thorough) exported with the real geff_to_csv below a dotted directory: file bytes and default pd.read_csv frames "
